@@ -248,18 +248,18 @@ fn npo_item(family: &str, seed: u64, hash_seed: u64) -> Result<(u64, u64), Strin
     let mut rng = Rng::new(seed, "C18-npo", 0);
     let npo = BuilderOpts { poseidon: true, recompose: true };
     let (circuit, cfg) = match family {
-        "mixed" => (mixed_tables_circuit(rng.range(1, 3), rng.range(2, 4), rng.usize_below(3))?, ProverCfg { npo, poseidon_both: true, ..ProverCfg::default() }),
+        "mixed" => (mixed_tables_circuit(rng.range(1, 3), rng.range(2, 4), rng.usize_below(3))?, ProverCfg { npo, poseidon_both: true, recompose_lanes: 2, ..ProverCfg::default() }),
         "a4" => {
             let shape = c08::draw_shape(&mut rng, "U-KB4-A4", Tier::Quick);
-            (c08::kb4a4::build_and_run(&shape, 1)?.0, ProverCfg { npo, poseidon_w32: true, ..ProverCfg::default() })
+            (c08::kb4a4::build_and_run(&shape, 1)?.0, ProverCfg { npo, poseidon_w32: true, recompose_lanes: 2, ..ProverCfg::default() })
         }
         "p1" => {
             let shape = c08::draw_shape(&mut rng, "U-KB4", Tier::Quick);
-            (c08::kb4p1::build_and_run(&shape, 1)?.0, ProverCfg { npo, poseidon1: true, ..ProverCfg::default() })
+            (c08::kb4p1::build_and_run(&shape, 1)?.0, ProverCfg { npo, poseidon1: true, recompose_lanes: 2, ..ProverCfg::default() })
         }
         _ => {
             let shape = c08::draw_shape(&mut rng, "U-KB4", Tier::Quick);
-            (c08::kb4::build_and_run(&shape, 1)?.0, ProverCfg { npo, ..ProverCfg::default() })
+            (c08::kb4::build_and_run(&shape, 1)?.0, ProverCfg { npo, recompose_lanes: 2, ..ProverCfg::default() })
         }
     };
     let cd = circuit_digest::<<Kb4 as CircuitUni>::BF, <Kb4 as CircuitUni>::EF>(&circuit);
